@@ -843,6 +843,38 @@ class Case:
             self.changed = False
         return obs
 
+    def refused_apply(self, rng):
+        """An application that the library refuses (documented ValueError: a range with only
+        one bound, an unknown feature name in `force`), caught by the client, the cause
+        repaired, then applied again: the settings that were pending at the refused call are
+        part of the current settings."""
+        ctx = self.ctx
+        free = [f for f in self.feats
+                if (f + " min") not in self.cfg and (f + " max") not in self.cfg]
+        key = None
+        if free and rng.random() < 0.6:
+            f = sorted(free)[0] if rng.random() < 0.5 else str(rng.choice(free))
+            key = f + (" min" if rng.random() < 0.5 else " max")
+            self.cfg[key] = 1.0
+            what = "half-open range"
+            self.log("range_one_bound_only", key)
+        else:
+            what = "unknown feature in force"
+        try:
+            if key is None:
+                self.ds.apply_filter(force=["not_a_feature"])
+            else:
+                self.ds.apply_filter()
+            outcome = "accepted"
+        except ValueError:
+            outcome = "refused"
+        if key is not None:
+            del self.cfg[key]
+        self.log("apply_refused_and_caught", what, outcome)
+        ctx.count(f"refused_apply[{what}:{outcome}]")
+        self.changed = True
+        return self.apply(label="apply_after_refusal")
+
     def snapshot(self, ds=None):
         f = (self.ds if ds is None else ds).filter
         return {k: np.array(getattr(f, k), copy=True) for k in ("all", "box", "polygon", "invalid")}
@@ -946,7 +978,9 @@ def _random_op(c, rng):
     feats = c.feats
     ranged = sorted({k[:-4] for k in c.cfg.data if k.endswith(" min") and (k[:-4] + " max") in c.cfg})
     configured = list(c.cfg["polygon filters"])
-    if u < 0.24:
+    if u < 0.03:
+        c.refused_apply(rng)
+    elif u < 0.24:
         c.apply()
     elif u < 0.29:
         k = int(rng.integers(1, 3))
